@@ -102,6 +102,12 @@ def peek (lx : Lexer σ τ) : Option τ × Lexer σ τ :=
     let lx' := lx.bufferNext E
     (lx'.buffer.map (·.token), lx')
 
+/-- `Lexer::is_empty_with_filter`: buffers the next token (eagerly skipping filtered
+ones where `buffer_next` does), then tests the cursor. -/
+def isEmptyWithFilter (lx : Lexer σ τ) : Bool × Lexer σ τ :=
+  let lx' := lx.bufferNext E
+  (decide (lx'.len ≤ lx'.cursor.byte), lx')
+
 /-- the unbuffered loop of `next_nonfiltered`. -/
 def nextLoop (behind : Bool) (lx : Lexer σ τ) : Option τ × Lexer σ τ :=
   match E.scan lx.scanner lx.metrics lx.cursor with
